@@ -119,6 +119,18 @@ def run_case(case, rec):
     nb = len(case["parents"])
     cell = rec.call("build", build_hand, case, case["ncomp0"])
     nc = list(case["ncomp0"])
+    if case["k"] % 2 == 0:
+        # history: the module has been simulated before it is re-discretised (nothing derived during a run may survive set_ncomp)
+        try:
+            import jax.numpy as jnp
+            import jaxley as jx
+            cell.select(nodes=[0]).record("v", verbose=False)
+            cell.select(nodes=[0]).stimulate(jnp.full((3,), 0.01), verbose=False)
+            for be in ("jaxley.stone", "jax.sparse"):
+                rec.call("direct_equiv", jx.integrate, cell, delta_t=0.025, voltage_solver=be, where="simulation before set_ncomp")
+            cell.delete_recordings(); cell.delete_stimuli()
+        except Refused:
+            cell = build_hand(case, case["ncomp0"])
     gb0 = group_branches(cell)
     tag = dict(parents=case["parents"], ncomp0=case["ncomp0"], calls=case["calls"], k=case["k"])
     changed = False
